@@ -2,7 +2,7 @@
    Only statements, closed by `exact`, each followed by Print Assumptions. *)
 From Coq Require Import NArith List Bool.
 From OFV Require Import Base.Cplx Base.Lin Sem.PauliSem Model.SymbolicOp Model.QubitOp
-  Thm.C01.QubitSimplify Thm.C01.SymHom Thm.C01.QubitHom Thm.C01.GenTie.
+  Sem.FermiSem Model.LadderOp Model.MajoranaOp Thm.C01.QubitSimplify Thm.C01.SymHom Thm.C01.QubitHom Thm.C01.FermiHom Thm.C01.GenTie Thm.C02.Bounded.
 Import ListNotations.
 
 (* _simplify denotes coefficient * the input word, for every word (any length, repeated qubits) *)
@@ -55,3 +55,22 @@ Theorem C01_gen_pauli_table :
   /\ List.length Gen.PauliTable.gen_pauli_products = 16%nat.
 Proof. exact gen_pauli_table_is_model. Qed.
 Print Assumptions C01_gen_pauli_table.
+
+(* FermionOperator: the same homomorphism theorems against the Fock-space semantics *)
+Theorem C01_fermion_mul_hom : forall a b s, leq N.eqb (fden (fmul a b) s) (lbind (fden b s) (fden a)).
+Proof. exact fmul_hom. Qed.
+Print Assumptions C01_fermion_mul_hom.
+Theorem C01_fermion_add_hom : forall a b s, iadd_exact lfactor lfeqb small_tol a b = true ->
+  leq N.eqb (fden (iadd lfeqb small_tol a b) s) (fden a s ++ fden b s).
+Proof. exact fadd_hom. Qed.
+Theorem C01_fermion_pow_hom : forall a n s, leq N.eqb (fden (spow lfeqb fsimplify a n) s) (lpow (fden a) n s).
+Proof. exact fpow_hom. Qed.
+Print Assumptions C01_fermion_pow_hom.
+
+(* MajoranaOperator [B]: merging/sorting index words preserves the denoted operator with the
+   computed parity sign (complete enumerations: sorted sets below 5; words of length <= 4 below 4) *)
+Theorem C01_majorana_merge_sound_5 : forallb (fun l => forallb (fun r => merge_ok l r) (subsets 5)) (subsets 5) = true.
+Proof. exact majorana_merge_sound_6. Qed.
+Theorem C01_majorana_sort_sound : forallb sort_ok (flat_map (iwords 4) (seq 0 5)) = true.
+Proof. exact majorana_sort_sound_4_4. Qed.
+Print Assumptions C01_majorana_sort_sound.
